@@ -11,6 +11,7 @@ import (
 	"errors"
 	"fmt"
 	"net"
+	"os"
 	"sort"
 	"strings"
 	"sync"
@@ -23,7 +24,7 @@ import (
 	"github.com/refraction-networking/uquic/internal/verifmc/wiremon"
 )
 
-var c17Causes = []string{"local-close", "remote-close", "idle-timeout", "transport-close", "stateless-reset", "handshake-timeout", "dial-cancel", "keepalive-then-blackhole", "idle-timeout-sending"}
+var c17Causes = []string{"local-close", "remote-close", "idle-timeout", "transport-close", "stateless-reset", "handshake-timeout", "dial-cancel", "keepalive-then-blackhole", "idle-timeout-sending", "fatal-transport-error"}
 
 // blocked client calls
 // (the "#2" entries are a second concurrent caller of the same blocking call)
@@ -384,6 +385,29 @@ func c17Run(t *testing.T, cfg c17Config) c17Result {
 					}
 				}()
 			}
+		case "fatal-transport-error":
+			// the peer misbehaves: an authentic 1-RTT packet (sealed with the server's keys from the
+			// key log) carries STREAM data on stream 2, a client-initiated unidirectional stream on
+			// which only the client may send: the client must close with STREAM_STATE_ERROR
+			full := w.Router.FullLog()
+			n, ver, ok1 := wiremon.ClientCIDLen(full)
+			dcid, ok2 := wiremon.LastDCID(full, sim.S2C, n)
+			if !ok2 { // no 1-RTT packet from the server yet: the client's handshake connection ID
+				dcid, ok2 = wiremon.ClientSCID(full)
+			}
+			if !ok1 || !ok2 {
+				fail("setup", "cannot read the client's connection ID off the wire")
+				break
+			}
+			gen := wiremon.Analyze(full, w.KeyLog.Lines(), wiremon.Params{}).Gen[1] // the server may have updated its keys
+			pkts := wiremon.Forge1RTT(w.KeyLog.Lines(), true, ver, gen, dcid, 1<<20, []byte{0x0a, 0x02, 0x01, 'x'})
+			if len(pkts) == 0 {
+				fail("setup", "no server traffic secret in the key log")
+			}
+			for _, p := range pkts {
+				w.Router.Inject(w.ServerAddr, cep.LocalAddr(), p, 0)
+			}
+			wantRemote = "STREAM_STATE_ERROR(remote)"
 		case "stateless-reset":
 			// the server loses all connection state and comes back on the same address with the same reset key
 			w.Router.RemoveNode(w.ServerAddr)
@@ -413,6 +437,14 @@ func c17Run(t *testing.T, cfg c17Config) c17Result {
 		}
 		tEnd := since()
 		recorded := context.Cause(conn.Context())
+		if os.Getenv("VERIF_DEBUG") != "" {
+			for _, e := range w.Router.FullLog() {
+				if e.T >= tCause-time.Millisecond {
+					fmt.Fprintf(os.Stderr, "C17DBG %v %v inj=%v len=%d b0=%02x fate=%v\n", e.T, e.Dir, e.Injected, len(e.Data), e.Data[0], e.Fate)
+				}
+			}
+			fmt.Fprintf(os.Stderr, "C17DBG tCause=%v tEnd=%v recorded=%v\n", tCause, tEnd, recorded)
+		}
 		// ---- every blocked call returns promptly with the one recorded cause
 		done := make(chan struct{})
 		go func() { cwg.Wait(); close(done) }()
@@ -476,6 +508,10 @@ func c17Run(t *testing.T, cfg c17Config) c17Result {
 					}
 				}
 				fail("idle-timeout-postponed-by-sending", "the peer went silent at %v, the application kept writing 1 byte every %v: the idle timeout (period in force %v) fired only at %v, more than a quarter period after (first packet sent after the last one received) + idle timeout = %v; last packet received at %v; datagrams sent into the dead path: %v", tCause, tm.Idle/4, eff, tEnd, tCause+tm.Idle/4+eff, lastRecv, sent)
+			}
+		case "fatal-transport-error":
+			if got := sim.ErrClass(recorded); got != "STREAM_STATE_ERROR(local)" {
+				fail("wrong-cause", "recorded cause %v (%s), want a locally raised STREAM_STATE_ERROR", recorded, got)
 			}
 		case "transport-close":
 			if recorded == nil || !errors.Is(recorded, quic.ErrTransportClosed) {
@@ -555,7 +591,6 @@ func c17Run(t *testing.T, cfg c17Config) c17Result {
 		}
 		res.class = fmt.Sprintf("%s ended~%v calls=%d", cause, (tEnd - tCause).Round(100*time.Millisecond), len(results))
 		res.ndgrams = w.Router.Count(sim.C2S) + w.Router.Count(sim.S2C)
-		_ = cep
 		_ = net.IPv4zero
 		teardown(conn)
 	})
@@ -647,7 +682,7 @@ func c17Configs(e explore.Env) ([]c17Config, string) {
 				}
 			}
 		}
-		return cfgs, fmt.Sprintf("close causes {local close, remote close, idle timeout, Transport.Close, stateless reset} x every set of <= %d concurrently blocked client calls out of %v x 3 positions (right after the handshake, 300 ms later, during a server-to-client transfer) + timing configurations + spec-driven client + 1 fault on the closing exchange; handshake timeout (silent peer) and dial cancellation at each of the first 8 datagrams; keep-alive answered for 5 idle periods then path death; path death while the application keeps writing every quarter idle period (3 timing configurations x plain/spec-driven x 2 call sets)", maxSet, c17Calls)
+		return cfgs, fmt.Sprintf("close causes {local close, remote close, idle timeout, Transport.Close, stateless reset, fatal transport error (an authentic 1-RTT packet with STREAM data on a send-only stream)} x every set of <= %d concurrently blocked client calls out of %v x 3 positions (right after the handshake, 300 ms later, during a server-to-client transfer) + timing configurations + spec-driven client + 1 fault on the closing exchange; handshake timeout (silent peer) and dial cancellation at each of the first 8 datagrams; keep-alive answered for 5 idle periods then path death; path death while the application keeps writing every quarter idle period (3 timing configurations x plain/spec-driven x 2 call sets)", maxSet, c17Calls)
 	}
 }
 
